@@ -96,7 +96,9 @@ def run(ctx):
                                  "input": t.decode("latin-1"), "what": "outcome depends on history: after history %s, alone %s" % (a[:120], alone[:120])})
             hist.append(t)
             if r.random() < 0.15:
-                got = factory_scenarios.run_all()
+                order = list(range(len(base_factory)))
+                r.shuffle(order)
+                got = factory_scenarios.run_all(order)
                 evals += len(got)
                 if got != base_factory:
                     bad = [(x, y) for x, y in zip(got, base_factory) if x != y][0]
